@@ -15,7 +15,7 @@ EXPAND = {"e": ["-e"], "d": ["-d"], "v": ["-v"], "V": ["-V"], "h": ["-h"], "le":
           "oO": ["-o", "O.out"], "oBad": ["-o", "nodir/x.out"],
           "kK": ["-k", K], "kW": ["--key", W], "kShort": ["-k", K[:-1]], "kBadChar": ["-k", K[:20] + "!" + K[21:]],
           "kNoPad": ["-k", K[:22] + "AA"], "kOnePad": ["-k", K[:22] + "A="], "kLong": ["-k", K[:22] + "AAAA=="], "kHigh": ["-k", K[:5] + "\udcc1" + K[6:]],
-          "c0": ["--cmode", "0"], "c4": ["--cmode", "4"], "cNeg": ["--cmode", "-1"], "cEmpty": ["--cmode", ""], "h0": ["--hmode", "0"], "h2": ["--hmode", "2"], "hNeg": ["--hmode", "-1"],
+          "c0": ["--cmode", "0"], "c4": ["--cmode", "4"], "cNeg": ["--cmode", "-1"], "cHuge": ["--cmode", "99999999999999999999"], "hHuge": ["--hmode", "4294967296"], "cEmpty": ["--cmode", ""], "h0": ["--hmode", "0"], "h2": ["--hmode", "2"], "hNeg": ["--hmode", "-1"],
           "iEmptyArg": ["-i", ""], "oEmptyArg": ["-o", ""], "kEmpty": ["-k", ""],
           "c2": ["--cmode", "2"], "c5": ["--cmode", "5"], "c100": ["--cmode", "100"], "c256": ["--cmode", "256"], "c260": ["--cmode", "260"], "cabc": ["--cmode", "abc"],
           "h1": ["--hmode", "1"], "h3": ["--hmode", "3"], "h256": ["--hmode", "256"], "x": ["-x"], "stray": ["stray"]}
